@@ -62,6 +62,7 @@ type lifeCycle struct {
 	closeErrs     []error
 	markerOK      bool
 	dupConnect    bool  // Connect is called again while this connection is up
+	early         bool  // the cause is started from the dialer, before Connect has returned
 	failFirst     []int // failing Connect attempts made before this connection: 0 no server, 1 dial error, 2 dial cancelled
 	dupDone       bool
 	dupErr        error
@@ -175,6 +176,11 @@ func lifeRun(e *Env) {
 		}
 		cy.quiet = []time.Duration{0, 0, time.Second, 30 * time.Second, 4 * time.Minute}[g.Intn(5)]
 		cy.midLine = g.Pct(20)
+		// the cause may begin the moment the dial completes, i.e. while Connect
+		// is still starting goroutines / dispatching REGISTER (a Close that early
+		// would legitimately be refused as "not connected", so only the causes
+		// that do not go through the client's API start early)
+		cy.early = g.Pct(12) && (cy.cause == causeCancel || cy.cause == causeEOF || cy.cause == causeReset)
 		if e.Prop == "C06" {
 			cy.dupConnect = g.Pct(35)
 			for k := g.W(5, 3, 1); k > 0 && w.reconn != 3; k-- {
@@ -223,6 +229,13 @@ func lifeRun(e *Env) {
 		cy.closesReturnedAtDial = w.closeReturned
 		w.cycles = append(w.cycles, cy)
 		e.S.Spawn(fmt.Sprintf("server%d", l.ID), func() { w.server(cy) })
+		if cy.early && (cy.cause != causeCancel || cy.cancel != nil) {
+			e.S.Count("fault.cause-while-connecting")
+			cy.armed = true
+			w.fire(cy, cy.cause, "early")
+		} else {
+			cy.early = false
+		}
 	}
 
 	// a Connect issued by a dup-connect task must never produce a connection:
@@ -572,8 +585,13 @@ func (w *lifeW) dupConnect(cy *lifeCycle) {
 	if !ok {
 		e.Violation("connect-while-connected", "after a refused Connect the existing connection %d no longer answers PING\n%s", cy.no, e.S.TaskDump())
 	}
-	if w.regEnter != reg || w.discCount != disc {
-		e.Violation("connect-while-connected", "a refused Connect fired events: REGISTER %d->%d DISCONNECTED %d->%d", reg, w.regEnter, disc, w.discCount)
+	// DISCONNECTED of an earlier connection is dispatched after its teardown
+	// released the client, so it may legitimately arrive while this one is up
+	// (a polling reconnect gets in first): only a DISCONNECTED beyond the
+	// number of connections that have ended is attributable to the refused
+	// Connect
+	if w.regEnter != reg || (w.discCount != disc && w.discCount > cy.no-1) {
+		e.Violation("connect-while-connected", "a refused Connect fired events: REGISTER %d->%d DISCONNECTED %d->%d with %d earlier connections", reg, w.regEnter, disc, w.discCount, cy.no-1)
 	}
 	if !w.c.Connected() {
 		e.Violation("connect-while-connected", "Connected() is false after a refused Connect although connection %d is up", cy.no)
@@ -669,7 +687,9 @@ func (w *lifeW) server(cy *lifeCycle) {
 		l.Send(":other!o@h PRIVMSG " + w.nick + " :this line is cut in the mi")
 	}
 	cy.armed = true
-	w.fire(cy, cy.cause, "a")
+	if !cy.early {
+		w.fire(cy, cy.cause, "a")
+	}
 	if cy.cause2 >= 0 {
 		w.fire(cy, cy.cause2, "b")
 	}
